@@ -98,7 +98,7 @@ func init() {
 		Gen: func(t *rapid.T) interface{} {
 			c := &SchedCase{QuiesMs: quiesMs()}
 			c.Rules = genRules(t, 1, 8, 15, 0, 50)
-			c.Builds = genBuilds(t, len(c.Rules))
+			genBuildsReplacing(t, c)
 			c.Pool = rapid.Bool().Draw(t, "pool")
 			var names []string
 			for _, n := range c05Methods {
